@@ -8,7 +8,7 @@ from sem import run_semantic
 
 MODULE = "Proofs.Props.C12"
 THEOREMS = ["Facto.Circuit.evalEnt_local", "Facto.Circuit.settle", "Facto.scalar_end_to_end", "Facto.read_isolated",
-            "Facto.evalNode_mapIdx", "Facto.embed_sound", "Facto.embed_nodeVal", "Facto.retype_nodeVal", "Facto.embed_retype_nodeVal", "Facto.bundle_end_to_end", "Facto.carries_sound", "Facto.scalar_history_end_to_end"]
+            "Facto.evalNode_mapIdx", "Facto.embed_sound", "Facto.embed_nodeVal", "Facto.retype_nodeVal", "Facto.embed_retype_nodeVal", "Facto.bundle_end_to_end", "Facto.carries_sound", "Facto.scalar_history_end_to_end", "Facto.alone_and_joint_agree"]
 
 
 def crosses(rec, verdict):
